@@ -94,15 +94,15 @@ EXTRA = {
  "C10": " Added later: rules embedded in an event are refused in a disabled location (GATE-FIRE); STORE-BEFORE-MEM (IndexedState.Add is a known finding); IDX-ROLLBACK. Session 5: an expired predecessor is purged before anything is indexed (ADD-EXPIRES-STALE); PROP-DW-ANY.",
  "C11": " Added later: the lock-order graph over rulio's mutexes has no cycle (LOCK-ORDER); no append-insert clobbers the tail of a shared slice (APPEND-CLOBBER). Session 5: pending requests are un-counted on every path (PENDING-PAIR); the shared cron's timeline stays sorted (TIMELINE-ORDER); shared code props are copied for each script (SHARED-TO-JS).",
  "C12": " Added later: LOCK-ORDER; values reachable from shared state are not written by readers (SHARED-WRITE); the failed-open clean-up re-checks under both locks (CACHE-EVICT). Session 5: no unprivileged re-entry into a held state lock (LOCK-REENTRY).",
- "C13": " Added later: no call hands a dereferencing function the zero value of a variable no store has reached (NIL-ZERO-ARG); the error of the cache's Get originates in opening / the existence check only (CACHE-ERR-ORIGIN). Session 5: structural recursion is position-aware (TERM); LOCK-REENTRY; PENDING-PAIR; a stored rule that cannot be scheduled still loads (HOOK-LOAD-TOLERANT); no typed nil as error (TYPED-NIL); RunJavascript recovers every panic (RECOVER-ALL); the cron parser is called under a recover (PARSE-RECOVER); RULE-SHAPED-SKIP; reserved properties are type-checked at write (PROP-TYPED).",
+ "C13": " Added later: no call hands a dereferencing function the zero value of a variable no store has reached (NIL-ZERO-ARG); the error of the cache's Get originates in opening / the existence check only (CACHE-ERR-ORIGIN). Session 5: structural recursion is position-aware (TERM); LOCK-REENTRY; PENDING-PAIR; a stored rule that cannot be scheduled still loads (HOOK-LOAD-TOLERANT); no typed nil as error (TYPED-NIL); RunJavascript recovers every panic (RECOVER-ALL); the cron parser is called under a recover (PARSE-RECOVER); RULE-SHAPED-SKIP; reserved properties are type-checked at write (PROP-TYPED). An interval with a zero tick length is refused (BRK-INTERVAL); no blocking send under the cron's mutex (LOCK-SEND).",
  "C14": " Added later: ANC-RESTORE, THUNK-LAZY, every constructor parameter is used (CTOR-PARAM: the per-group script timeout reaches the location). Session 5: RECOVER-ALL, TYPED-NIL.",
- "C15": " Added later: the cron loop re-arms its timer on every wake-up (CRON-REARM); the timeline stays sorted (TIMELINE-ORDER); the add hook never leaves a refused replacement without its job (HOOK-ADD-KEEPS), unregisters a scheduled rule that is overwritten by something unscheduled (HOOK-REPLACE) and runs before storage is written (HOOK-BEFORE-STORE); a due time from cronexpr is stored only under an IsZero test (CRON-NEXT-ZERO); OneShotSchedule classifies the trimmed schedule (ONESHOT-AGREE); crolt request URLs carry their endpoint (CROLT-URL). Session 5: the removal hook accepts a missing id (HOOK-REM-MISSING); HOOK-LOAD-TOLERANT; CROLT-ESCAPE; the trigger event carries the id as a JSON string (JSON-QUOTE); a job removed or replaced while it runs stays out (CRON-INFLIGHT).",
- "C16": " Added later: CRON-REARM, TIMELINE-ORDER, CRON-NEXT-ZERO, time.Parse argument order (TIME-PARSE-ARGS), CROLT-URL, every store into Job.at is a UTC time (AT-UTC), writer and deleter of a job agree on the partition (PARTITION-AGREE), bolt errors inside transactions reach the closure's result (BOLT-ERR). Session 5: delete-then-put on crolt's time index (TIMEIDX-ORDER); CROLT-ESCAPE; CRON-INFLIGHT.",
- "C17": " Added later: get-or-create on the cache table is decided by presence (CACHE-GET-OR-CREATE); the in-use mark counts its users (PENDING-COUNT: known finding); CACHE-EVICT; with CachePending on every new entry is published before the table lock is released (CACHE-PENDING-SHARED); the two cache mutexes are taken in one order (LOCK-ORDER); every checked request looks at the creation marker, cached or not (EXIST-EVERY); Storage.Load does not write the storage object (LOAD-PURE). Session 5: an entry's location is only written with OpenLocation's result (CACHE-LOC-STICKY).",
+ "C15": " Added later: the cron loop re-arms its timer on every wake-up (CRON-REARM); the timeline stays sorted (TIMELINE-ORDER); the add hook never leaves a refused replacement without its job (HOOK-ADD-KEEPS), unregisters a scheduled rule that is overwritten by something unscheduled (HOOK-REPLACE) and runs before storage is written (HOOK-BEFORE-STORE); a due time from cronexpr is stored only under an IsZero test (CRON-NEXT-ZERO); OneShotSchedule classifies the trimmed schedule (ONESHOT-AGREE); crolt request URLs carry their endpoint (CROLT-URL). Session 5: the removal hook accepts a missing id (HOOK-REM-MISSING); HOOK-LOAD-TOLERANT; CROLT-ESCAPE; the trigger event carries the id as a JSON string (JSON-QUOTE); a job removed or replaced while it runs stays out (CRON-INFLIGHT). A refusal by crolt is a refusal (CROLT-STATUS); a refused replacement keeps the old job (CRON-LIMIT-FIRST).",
+ "C16": " Added later: CRON-REARM, TIMELINE-ORDER, CRON-NEXT-ZERO, time.Parse argument order (TIME-PARSE-ARGS), CROLT-URL, every store into Job.at is a UTC time (AT-UTC), writer and deleter of a job agree on the partition (PARTITION-AGREE), bolt errors inside transactions reach the closure's result (BOLT-ERR). Session 5: delete-then-put on crolt's time index (TIMEIDX-ORDER); CROLT-ESCAPE; CRON-INFLIGHT. CROLT-STATUS; the jitter is never negative (JITTER-NONNEG); CRON-LIMIT-FIRST; LOCK-SEND; a loop that starts arms its timer (CRON-START-ARMS).",
+ "C17": " Added later: get-or-create on the cache table is decided by presence (CACHE-GET-OR-CREATE); the in-use mark counts its users (PENDING-COUNT: known finding); CACHE-EVICT; with CachePending on every new entry is published before the table lock is released (CACHE-PENDING-SHARED); the two cache mutexes are taken in one order (LOCK-ORDER); every checked request looks at the creation marker, cached or not (EXIST-EVERY); Storage.Load does not write the storage object (LOAD-PURE). Session 5: an entry's location is only written with OpenLocation's result (CACHE-LOC-STICKY). Every function that installs a control forces CachePending on it (premise clause of CACHE-PENDING-SHARED).",
  "C19": " Added later: the key gates fail closed when the key cannot be read (GATE-FAILCLOSED); the parent list is handed out only behind CheckRead (GATE-PARENTS); the size of a disabled location is not reported (GATE-COUNT). Session 5: PROP-TYPED; the trusted caller of SetProp passes the location's gates (GATE-UNTRUSTED).",
- "C20": " Added later: CTOR-PARAM (the per-group capacity reaches the location); the throttle gives back only slots it took and every slot it took (THR-PENDING); Adjust keeps the calls in the window (BRK-ADJUST). Known finding: the window has as many elements as ticks, so it reaches back less than one interval (BRK-WINDOW). Session 5: the all-aged-out branch of slide is not dead (BRK-SLIDE).",
- "C05": "Session 5: BIND-PRESENCE.",
- "C18": "Session 5: strings pasted into JSON answers are JSON strings (JSON-QUOTE); a parameter's value decides, not its presence (PARAM-PRESENCE); TYPED-NIL.",
+ "C20": " Added later: CTOR-PARAM (the per-group capacity reaches the location); the throttle gives back only slots it took and every slot it took (THR-PENDING); Adjust keeps the calls in the window (BRK-ADJUST). Known finding: the window has as many elements as ticks, so it reaches back less than one interval (BRK-WINDOW). Session 5: the all-aged-out branch of slide is not dead (BRK-SLIDE). BRK-INTERVAL; an Adjust that changes the window's shape carries the counted calls over (BRK-ADJUST, carry clause).",
+ "C05": "Session 5: BIND-PRESENCE. The cast in front of the matcher covers pattern, fact and initial bindings (CAST-ALL-INPUTS) and Go integers (CAST-NUMBERS).",
+ "C18": "Session 5: strings pasted into JSON answers are JSON strings (JSON-QUOTE); a parameter's value decides, not its presence (PARAM-PRESENCE); TYPED-NIL. The operation is the one the request was sent to (URI-PATH-WINS); error texts are data, not formats (FMT-CONST).",
 }
 
 NOT_APPLICABLE = {
